@@ -154,7 +154,8 @@ def run(ctx):
             if hasattr(m, "graph_"):
                 g = m.graph_.tocsr()
                 deg = np.asarray(g.sum(axis=1)).ravel() == 0
-                iso = deg[m._unique_inverse_] if unique and hasattr(m, "_unique_inverse_") and len(deg) != n else deg
+                # with unique=True graph_ is indexed by the (sorted) distinct rows, embedding_ by the input rows
+                iso = deg[np.asarray(m._unique_inverse_).ravel()] if unique and hasattr(m, "_unique_inverse_") else deg
             bad = ~np.isfinite(E).all(axis=1) & ~iso
             if bad.any():
                 ctx.violation("finite", f"{int(bad.sum())} non-isolated samples have non-finite rows (first: {np.where(bad)[0][:5].tolist()})", case,
